@@ -174,4 +174,7 @@ int __wrap_sigaction(int sig, const struct sigaction *a, struct sigaction *o) { 
 int __real_pthread_key_create(pthread_key_t *, void (*)(void *));
 /* thread-specific-data keys are a small process-wide pool (1024 in glibc): creating one is reported as what = 3 */
 int __wrap_pthread_key_create(pthread_key_t *k, void (*d)(void *)) { if (HOOKED(process_state_)) simos_hooks.process_state_(3, 0, 1); return __real_pthread_key_create(k, d); }
+int __real_pthread_atfork(void (*)(void), void (*)(void), void (*)(void));
+/* fork handlers are appended to a process-wide list and never removed: registering them is reported as what = 4 */
+int __wrap_pthread_atfork(void (*a)(void), void (*b)(void), void (*c)(void)) { if (HOOKED(process_state_)) simos_hooks.process_state_(4, 0, 1); return __real_pthread_atfork(a, b, c); }
 mode_t __wrap_umask(mode_t m) { if (HOOKED(process_state_)) simos_hooks.process_state_(2, 0, 1); return __real_umask(m); }
